@@ -73,6 +73,42 @@ pub fn check_builds(cfg: &Config, target: &Path) -> Result<(), (String, String)>
     }
 }
 
+/// no-std half, part 2: in the resolved feature graph of a selection without default features no target dependency may have
+/// its `std` or `alloc` feature switched on (the host build would still succeed, a build for a target without std would not)
+pub fn check_feature_graph(cfg: &Config, target: &Path) -> Result<(), (String, String)> {
+    let feats = cfg.features.join(",");
+    let mut args = vec!["tree", "--offline", "--no-default-features", "-e", "features", "--prefix", "none"];
+    if !feats.is_empty() {
+        args.push("--features");
+        args.push(&feats);
+    }
+    let (ok, log) = cargo(Path::new(REPO_PATH), target, &args);
+    if !ok {
+        return Err((format!("c19:feature-graph:{}", cfg.name), format!("cargo tree failed for [{}]: {}", feats, first_error(&log))));
+    }
+    const HOST_ONLY: &[&str] = &["proc-macro2", "quote", "syn", "unicode-ident", "serde_derive", "zerocopy-derive", "autocfg", "version_check"];
+    let mut bad: Vec<String> = Vec::new();
+    for l in log.lines() {
+        let l = l.trim();
+        let mut it = l.split_whitespace();
+        let (name, kw, feat) = (it.next().unwrap_or(""), it.next().unwrap_or(""), it.next().unwrap_or(""));
+        if kw == "feature" && (feat == "\"std\"" || feat == "\"alloc\"") && !HOST_ONLY.contains(&name) && name != "rtcm-rs" {
+            let e = format!("{} {}", name, feat);
+            if !bad.contains(&e) {
+                bad.push(e);
+            }
+        }
+    }
+    if bad.is_empty() {
+        Ok(())
+    } else {
+        Err((
+            format!("c19:dependency-needs-std:{}", cfg.name),
+            format!("selection [{}] without default features resolves dependencies with std/alloc switched on: {}", feats, bad.join(", ")),
+        ))
+    }
+}
+
 /// the behavioural half: driver built with only that feature decodes the frame file
 pub fn check_behaviour(cfg: &Config, verif: &Path, target: &Path, frames_file: &Path, expected: &[(u16, String)]) -> Result<usize, (String, String)> {
     let feats: Vec<String> = cfg.features.iter().map(|f| format!("rtcm-rs/{}", f)).collect();
@@ -130,7 +166,7 @@ pub fn check_behaviour(cfg: &Config, verif: &Path, target: &Path, frames_file: &
 
 pub fn run(ctx: &Ctx, replay: Option<&J>) -> CheckResult {
     let rule = "configurations enumerated: every msgNNNN feature of /repo/Cargo.toml alone, the empty selection, all_msgs without std, all_msgs+serde without std, and a seeded sample of \
-        single features with serde; each is built with `cargo check --lib --no-default-features` (the crate is then #![no_std]) — all of them in both tiers (exhaustive). Behavioural half: a \
+        single features with serde; each is built with `cargo check --lib --no-default-features` (the crate is then #![no_std]) — all of them in both tiers (exhaustive); for each, the resolved feature graph (`cargo tree -e features`) must not switch on `std`/`alloc` of any target dependency. Behavioural half: a \
         driver linked against the single-feature build decodes a frame file produced by the full-feature harness (golden + generated + hostile frames of all types with the full build's Debug \
         rendering): frames of its own type must render identically, every other number must be MsgNotSupported{n}; in both tiers for every single-feature configuration, the empty one and all_msgs (thorough adds the serde variants). non-trivial = configuration that compiles and decodes >=1 typed frame; distinct = configuration"
         .to_string();
@@ -163,7 +199,11 @@ pub fn run(ctx: &Ctx, replay: Option<&J>) -> CheckResult {
         let feats: Vec<String> = c["features"].as_array().map(|a| a.iter().filter_map(|x| x.as_str()).map(|s| s.to_string()).collect()).unwrap_or_default();
         let cfg = Config { name: name.to_string(), features: feats };
         ev.eval();
-        if let Err((sig, msg)) = check_builds(&cfg, &work.join("t-replay")) {
+        if c["half"] == "feature-graph" {
+            if let Err((sig, msg)) = check_feature_graph(&cfg, &work.join("t-replay")) {
+                vs.push(Violation { property: "C19".into(), signature: sig, message: msg, case: c.clone() });
+            }
+        } else if let Err((sig, msg)) = check_builds(&cfg, &work.join("t-replay")) {
             vs.push(Violation { property: "C19".into(), signature: sig, message: msg, case: c.clone() });
         } else if c["half"] == "behaviour" {
             let (file, expected) = write_frames(ctx, &work);
@@ -189,6 +229,21 @@ pub fn run(ctx: &Ctx, replay: Option<&J>) -> CheckResult {
             out
         })
         .collect();
+    // feature graph of every configuration
+    let graph: Vec<(usize, Result<(), (String, String)>)> = (0..configs.len()).into_par_iter().map(|i| (i, check_feature_graph(&configs[i], &work.join(format!("t{}", i % WORKERS))))).collect();
+    for (i, r) in graph {
+        ev.evaluations += 1;
+        match r {
+            Ok(()) => ev.class("feature-graph/no-std-or-alloc-in-dependencies"),
+            Err((sig, msg)) => {
+                if ctx.is_known(&sig) {
+                    ev.excluded_known += 1;
+                } else {
+                    vs.push(Violation { property: "C19".into(), signature: sig, message: msg, case: json!({"kind":"config","half":"feature-graph","config":configs[i].name,"features":configs[i].features}) });
+                }
+            }
+        }
+    }
     let mut built_ok = vec![false; configs.len()];
     for (i, r) in results {
         ev.evaluations += 1;
